@@ -48,10 +48,12 @@ CLAIMED = {
         "DESIGN.md section 5 C01",
     ),
     "C02": (
-        "Coq proof that the model parser returns a tree or SyntaxError and accepts exactly the forests derivable by the docstring grammar (= local well-formedness) + correspondence and outcome-class oracle on three input streams",
-        "Props/C02.v: parse_cond s is Ok or Exn SyntaxErr for every string; it accepts iff lexing and bracket matching succeed and the forest is locally well-formed; local well-formedness is equivalent to "
-        "derivability in the ambiguous grammar of the docstring. The AHB parser, the resolver and the validity check are covered by the outcome-class oracle on AHB-shaped strings (well-formed, nearly well-formed, garbage).",
-        "Trusted: as C01. Partial: the AHB-expression scanner / resolver are not yet inside the Coq model (oracle only); resource limits (recursion depth, memory) are outside the model.",
+        "Coq proof that the model parsers return a tree or SyntaxError and accept exactly the forests derivable by the docstring grammar (= local well-formedness) + correspondence with Lark on three input streams for all entry points",
+        "Props/C02.v: parse_cond s is Ok or Exn SyntaxErr for every string and accepts iff lexing and bracket matching succeed and the forest is locally well-formed, which is equivalent to derivability in the "
+        "ambiguous grammar of the docstring; the AHB scanner and the resolver (try AHB, then condition expression) return a tree or SyntaxError for every string; an AHB expression with a malformed condition part is rejected. "
+        "Correspondence: condition parser, AHB parser and resolver vs the models on well-formed, nearly well-formed and garbage strings; the validity check by oracle.",
+        "Trusted: as C01; Model/Ahb.v models Lark's dynamic lexer on the three AHB terminal regexes (character data computed by the translator with Python's re); resource limits (recursion depth, memory) are outside the model; "
+        "is_valid_expression's (False, message) report is checked by the oracle only.",
         "DESIGN.md section 5 C02",
     ),
     "C08": (
